@@ -52,11 +52,11 @@ def conditions(tier, seed):
     if tier == 'thorough':
         import random
         rnd = random.Random(seed)
-        for k in range(24):
+        for k in range(48):
             a = rnd.choice(v)
             third = rnd.choice(BIN if a[1] in OPERANDS else OPERANDS + UNY + ['LPAREN'])
-            out.append(Cond('bmc_N6_%s' % '_'.join(a + [third]), 'c07_bmc.py', dict(N=6, cubes=[a + [third]], timeout_ms=3600000),
-                            kind='script', timeout=4 * 3600, bound='length 6, prefix %s' % ' '.join(a + [third]), symbolic=['t4..t6']))
+            out.append(Cond('bmc_N6_%s' % '_'.join(a + [third]), 'c07_bmc.py', dict(N=6, cubes=[a + [third]], timeout_ms=1500000),
+                            kind='script', timeout=2400, bound='length 6, prefix %s' % ' '.join(a + [third]), symbolic=['t4..t6']))
     ns = 64 if tier == 'quick' else 8
     picks = [(seed * 3 + k * 9) % ns for k in range(4)] if tier == 'quick' else list(range(ns))
     for sh in picks:
